@@ -217,6 +217,7 @@ func run(r *core.Run) int {
 			r.Sample("result-"+out.Results[0].Result.String()+"-"+j.c.Route, map[string]any{"scenario": sc.Desc(), "result": sims.CanonString(sims.Canon(out.Results))})
 		}
 	})
+	r.Set("caller_owned_bundles_found_modified", len(sims.ModifiedBundles()))
 	return r.Finish(r.Pick(1500, 50000),
 		core.Require{Counter: "result-OK", Why: "no execution ended OK"},
 		core.Require{Counter: "result-Revoked", Why: "no execution ended Revoked"},
